@@ -246,7 +246,7 @@ def run(run: Run) -> None:
     quick, seed = run.quick, run.seed
     us: list = [("guard", n) for n in range(2, 8 if quick else 10)]
     us += [("basis", n) for n in range(2, 7 if quick else 10)]
-    us += [("large", n) for n in ((9, 17) if quick else (9, 12, 16, 17))]
+    us += [("large", n) for n in ((9, 17) if quick else (9, 12, 16, 17, 20))]
     for grand in ((2.0,) if quick else (2.0, 0.0, -1.0)):
         us += [("lat3", i, i + 256, grand) for i in range(0, 4096, 256)]
     g3 = A.a3_sa()
